@@ -456,23 +456,22 @@ fn vp_threshold_to_u32(x: u128) -> (r: u32) { unimplemented!() }
 impl UnstableBlocks {
 //@extract file=canister/src/unstable_blocks.rs in="impl UnstableBlocks" item="fn set_stability_threshold" props=C13
 //@ spec
-//@| ensures final(self).tree == old(self).tree, final(self).next_block_headers == old(self).next_block_headers, final(self).network == old(self).network,
-//@|     final(self).outpoints_cache == old(self).outpoints_cache, final(self).vp_bodies == old(self).vp_bodies, final(self).stability_threshold == stability_threshold,
+//@| ensures *final(self) == (UnstableBlocks { stability_threshold: stability_threshold, ..*old(self) }),
 //@end
 }
 //@extract file=canister/src/api/set_config.rs item="fn set_config_no_verification" props=C13
-//@ sigrewrite R7 "fn set_config_no_verification\(request: SetConfigRequest\)" => "fn set_config_no_verification(vp_st: &mut State, request: SetConfigRequest)"
-//@ rewrite R7 "crate::with_state_mut" => "with_state_mut"
-//@ r7 rw="&mut *vp_st" ro="&*vp_st" type=State
+//@ sigrewrite R7 "fn set_config_no_verification\(request: SetConfigRequest\)" => "fn set_config_no_verification(s: &mut State, request: SetConfigRequest)"
+//@ rewrite R7 "crate::with_state_mut\(\|s\| \{" => "{ {"
+//@ rewrite R7 "\}\);\s*\}$" => "}; } }"
 //@ rewrite R3 "stability_threshold\s*\.try_into\(\)\s*\.expect\(\"stability threshold too large\"\)" => "vp_threshold_to_u32(stability_threshold)"
 //@ spec
 //@| ensures
 //@|     // the fetch guard's flag, the stored reply and the error counters are not set_config's to change
-//@|     final(vp_st).syncing_state.is_fetching_blocks == old(vp_st).syncing_state.is_fetching_blocks,
-//@|     final(vp_st).syncing_state.response_to_process == old(vp_st).syncing_state.response_to_process,
-//@|     final(vp_st).syncing_state.syncing == (match request.syncing { Some(x) => x, None => old(vp_st).syncing_state.syncing }),
-//@|     final(vp_st).utxos == old(vp_st).utxos, final(vp_st).stable_block_headers == old(vp_st).stable_block_headers,
-//@|     final(vp_st).unstable_blocks.tree == old(vp_st).unstable_blocks.tree,
-//@|     final(vp_st).unstable_blocks.next_block_headers == old(vp_st).unstable_blocks.next_block_headers,
-//@|     final(vp_st).api_access == (match request.api_access { Some(x) => x, None => old(vp_st).api_access }),
+//@|     final(s).syncing_state.is_fetching_blocks == old(s).syncing_state.is_fetching_blocks,
+//@|     final(s).syncing_state.response_to_process == old(s).syncing_state.response_to_process,
+//@|     final(s).syncing_state.syncing == (match request.syncing { Some(x) => x, None => old(s).syncing_state.syncing }),
+//@|     final(s).utxos == old(s).utxos, final(s).stable_block_headers == old(s).stable_block_headers,
+//@|     final(s).unstable_blocks.tree == old(s).unstable_blocks.tree,
+//@|     final(s).unstable_blocks.next_block_headers == old(s).unstable_blocks.next_block_headers,
+//@|     final(s).api_access == (match request.api_access { Some(x) => x, None => old(s).api_access }),
 //@end
